@@ -22,7 +22,7 @@ from vf.c16_runner import GROUPS, LETTERS
 LEVEL = "exploration"
 EXHAUSTIVE = {"quick": False, "thorough": False}
 RULE = (
-    "alphabet of 80 parameterised operations (Jacobi with different h / coefficients on one object, MG with scalar and "
+    "alphabet of 82 parameterised operations (Jacobi with different h / coefficients on one object, MG with scalar and "
     "array coefficients, H1 regularisation with the default, an explicit Jacobi and an explicit MG solver, different mu / "
     "omega / shapes / RGB, split-Bregman TVD default / explicit solver / ell, tvd front-end, Anderson sequences crossing "
     "restart boundaries, Newton / Bregman / adaptive-Bregman objects with direct, AMG and CG back-ends (with and without "
@@ -37,8 +37,8 @@ ASSUMPTIONS = [
     "exceptions are results too (their type and message are compared)",
 ]
 FLOORS = {
-    "quick": {"history_executed": 450, "call_equals_fresh_call": 850, "alone_reproducible": 80},
-    "thorough": {"history_executed": 4000, "call_equals_fresh_call": 10000, "alone_reproducible": 80},
+    "quick": {"history_executed": 450, "call_equals_fresh_call": 850, "alone_reproducible": 82},
+    "thorough": {"history_executed": 4000, "call_equals_fresh_call": 10000, "alone_reproducible": 82},
 }
 SHARD_TIMEOUT = {"quick": 1500, "thorough": 10000}
 
@@ -249,7 +249,7 @@ def finalize(spec, R, run_dir):
 
 MANIFEST = {
     "technique": "offline history checker over boundary logs recorded in one fresh interpreter per call history; sequential specification 'a call is a function of its own arguments' (bitwise result digests)",
-    "level_text": "Each call history over an alphabet of 80 parameterised operations runs in its own fresh interpreter, which logs the full digest of every returned array; the offline checker requires every call, at every position of every history, to equal the same call issued alone in a fresh interpreter (reference runs are made twice to establish determinism). quick covers all ordered pairs inside every state-sharing group plus sampled cross-group pairs and longer histories; thorough all 6400 ordered pairs, in-group triples and 1500 longer histories.",
+    "level_text": "Each call history over an alphabet of 82 parameterised operations runs in its own fresh interpreter, which logs the full digest of every returned array; the offline checker requires every call, at every position of every history, to equal the same call issued alone in a fresh interpreter (reference runs are made twice to establish determinism). quick covers all ordered pairs inside every state-sharing group plus sampled cross-group pairs and longer histories; thorough all 6724 ordered pairs, in-group triples and 1500 longer histories.",
     "level_note": "Bitwise comparison presumes single-threaded BLAS and fixed hash seed (set by the harness); histories longer than two calls are sampled; the alphabet fixes the parameter values that are contrasted.",
     "design_ref": "DESIGN.md section 3, C16",
 }
